@@ -14,7 +14,7 @@ Step(ev) ==
             ELSE IF ev.fmt = "png" THEN Chk(PNGOk(ev.file, ev.inflated, ev.img), "PNG output is not a valid file for the image (signature, chunk framing, CRCs, IHDR, scanlines)")
             ELSE LET d == Dec(ev.file) IN
                  /\ Chk(d.ok /\ SameImage(d, ev.img), "saved " \o ev.fmt \o " file does not decode (reference decoder) to the image's pixels")
-                 /\ Chk(ev.fmt # "bmp" \/ (U32(ev.file, 3) = Len(ev.file) /\ U32(ev.file, 11) = 14 + U32(ev.file, 15)), "BMP header: file size / data offset fields")
+                 /\ Chk(ev.fmt # "bmp" \/ (U32(ev.file, 3) = Len(ev.file) /\ U32(ev.file, 11) >= 14 + U32(ev.file, 15)), "BMP header: file size field / data offset before the end of the headers")
     [] ev.e = "load" ->
          LET d == Dec(ev.file) IN
          /\ Chk(~d.ok \/ (ev.out = "ok" /\ SameImage(d, ev.img)), "loading a valid " \o ev.variant \o " file does not yield the pixels the format defines")
